@@ -201,7 +201,7 @@ pub fn run(report: &Report, budget: &Budget) {
     // (b) history graph
     let depth = if thorough { 3 } else { 2 };
     let hb = Budget::new(if thorough { 500 } else { 15 });
-    let st = hist::explore(report, &hb, "C14", depth, thorough, false, &hist_oracle, None, None);
+    let st = hist::explore(report, &hb, "C14", depth, thorough, false, thorough, &hist_oracle, None, None);
     hist::write_stats(report, &st, depth);
     // (a) re-backup of every C01 input
     let f = |c: &crate::c01::Case, t: &Tree, scratch: &Scratch| judge_rebackup(t, &c.opts, &c.tag, scratch);
